@@ -4442,7 +4442,9 @@ class FlowIR(object):
                 try:
                     stage_weight = float(flowir[self.FieldStatusReport][idx]['stage-weight'])
                 except (ValueError, TypeError):
+                    # VV: a weight that is not a number counts as missing, also for whoever reads the status report next
                     stage_weight = 0.0
+                    flowir[self.FieldStatusReport][idx]['stage-weight'] = stage_weight
 
                 weights.append(stage_weight)
 
